@@ -179,6 +179,95 @@ def analyse_diff(seed, mutant=None, timeout_ms=20000):
     return out
 
 
+def equiv_cases(vf):
+    """pairs (name, tensor/derivative API expression, the same quantity written with scalar primitives only): the definitions of the
+    composite operations a form is written with"""
+    out = []
+    def case(name, mk): out.append((name, mk))
+    def mats(d=2):
+        V = vf.VForm(d, arity=1); v = V.basisfuns(); A = V.input('A', shape=(2, 3)); B = V.input('B', shape=(3, 2)); x = V.input('x', shape=(3,)); y = V.input('y', shape=(3,))
+        return V, v, A, B, x, y
+    def c(i, j):
+        def mk():
+            V, v, A, B, x, y = mats(); return V, vf.dot(A, B)[i, j], sum((A[i, k] * B[k, j] for k in range(1, 3)), A[i, 0] * B[0, j])
+        return mk
+    for i in range(2):
+        for j in range(2): case('dot(A 2x3, B 3x2)[%d,%d]' % (i, j), c(i, j))
+    def c(i, j):
+        def mk():
+            V, v, A, B, x, y = mats(); return V, vf.dot(B, A)[i, j], B[i, 0] * A[0, j] + B[i, 1] * A[1, j]
+        return mk
+    for i, j in ((0, 0), (2, 1), (1, 2), (2, 2)): case('dot(B 3x2, A 2x3)[%d,%d]' % (i, j), c(i, j))
+    def c(i):
+        def mk():
+            V, v, A, B, x, y = mats(); return V, vf.dot(A, x)[i], A[i, 0] * x[0] + A[i, 1] * x[1] + A[i, 2] * x[2]
+        return mk
+    for i in range(2): case('dot(A 2x3, x)[%d]' % i, c(i))
+    def mk():
+        V, v, A, B, x, y = mats(); return V, vf.inner(x, y), x[0] * y[0] + x[1] * y[1] + x[2] * y[2]
+    case('inner(x, y)', mk)
+    def c(i, j):
+        def mk():
+            V, v, A, B, x, y = mats(); return V, vf.outer(x, y)[i, j], x[i] * y[j]
+        return mk
+    for i, j in ((0, 2), (2, 1)): case('outer(x, y)[%d,%d]' % (i, j), c(i, j))
+    def c(i):
+        def mk():
+            V, v, A, B, x, y = mats(); a, b = (i + 1) % 3, (i + 2) % 3
+            return V, vf.cross(x, y)[i], x[a] * y[b] - x[b] * y[a]
+        return mk
+    for i in range(3): case('cross(x, y)[%d]' % i, c(i))
+    def c(i, j):
+        def mk():
+            V, v, A, B, x, y = mats(); return V, A.T[i, j], A[j, i]
+        return mk
+    for i, j in ((0, 1), (2, 0)): case('A.T[%d,%d]' % (i, j), c(i, j))
+    # repeated differentiation in one call = chained first derivatives, for every kind of differentiable thing
+    def dcase(kind, d, k, times):
+        def mk():
+            V = vf.VForm(d, arity=1); v = V.basisfuns(); f = V.input('f'); g = V.input('g')
+            w = {'field': f, 'let': V.let('w', f - g * g), 'let of let': V.let('w2', V.let('w1', f * g) + g), 'basis': v}[kind]
+            lhs = vf.Dx(w, k, times, parametric=True) if kind != 'basis' else w.dx(k, times=times, parametric=True)
+            rhs = w
+            for _ in range(times): rhs = vf.Dx(rhs, k, parametric=True) if kind != 'basis' else rhs.dx(k, parametric=True)
+            return V, lhs, rhs
+        return mk
+    for kind in ('field', 'let', 'let of let', 'basis'):
+        for d, k, times in ((1, 0, 2), (2, 1, 2), (2, 0, 3)):
+            case('Dx(%s, %d, times=%d) in %dD' % (kind, k, times, d), dcase(kind, d, k, times))
+    def mk():
+        V = vf.VForm(2, arity=1); v = V.basisfuns(); f = V.input('f'); g = V.input('g'); w = V.let('w', f - g * g)
+        return V, w.dx(0, times=2), w.dx(0).dx(0)
+    case('w.dx(0, times=2) for a let variable', mk)
+    return out
+
+
+def analyse_equiv(idx, mutant=None, timeout_ms=20000):
+    vf = vfmod(mutant)
+    out = {'spec': ['equiv', idx], 'queries': {'unsat': 0, 'sat': 0, 'unknown': 0}, 'solver_s': 0.0}
+    name, mk = equiv_cases(vf)[idx]
+    out['desc'] = name
+    try:
+        V, lhs, rhs = mk()
+    except EXPLICIT + (AssertionError,) as e:
+        out['status'] = 'reject-build'; out['detail'] = '%s: %s' % (type(e).__name__, str(e)[:80]); return out
+    env = sem.Env(vf, V)
+    try:
+        a = sem.ev(vf.as_expr(lhs), env); b = sem.ev(vf.as_expr(rhs), env)
+    except NotImplementedError as e:
+        out['status'] = 'sem-unsupported'; out['detail'] = str(e)[:100]; return out
+    pre = env.geometry_assumptions() + env.side + [dd != 0 for dd in env.denoms]
+    if z3.is_expr(a) and z3.is_expr(b) and a.eq(b):
+        out['queries']['unsat'] += 1; out['status'] = 'holds'; return out
+    res, m, dt = solve(pre, a != b, timeout_ms)
+    out['queries'][res] += 1; out['solver_s'] += dt
+    if res == 'sat':
+        out['status'] = 'violation'; out['which'] = 'definition of a composite operation: ' + name; out['model'] = model_atoms(m, env)
+    else:
+        out['status'] = 'undecided' if res == 'unknown' else 'holds'
+    return out
+
+
 def model_atoms(m, env):
     vals = {}
     for name, t in env.atoms.items():
@@ -198,6 +287,8 @@ def _worker(args):
     try:
         if spec[0] == 'diff':
             return analyse_diff(spec[1], mutant, timeout_ms)
+        if spec[0] == 'equiv':
+            return analyse_equiv(spec[1], mutant, timeout_ms)
         return analyse(spec, mutant, timeout_ms)
     except Exception as e:
         return {'spec': list(spec), 'status': 'harness-error', 'detail': traceback.format_exc()[-800:],
@@ -262,8 +353,23 @@ def run_diff(perturb, rnd):
     lhs = sem.ev(de, env); _, rhs = sem.dual(r['e'], env, r['k'], r['parametric'])
     bad = ['diffrule'] if abs(lhs - rhs) > 1e-7 * (1 + abs(lhs) + abs(rhs)) else []
     return bad, [[lhs], [rhs]]
+def run_equiv(perturb, rnd):
+    from checks.C06 import equiv_cases
+    name, mk = equiv_cases(vf)[spec[1]]
+    V, lhs, rhs = mk()
+    cache = {}
+    def atom(name):
+        if name not in cache:
+            cache[name] = atoms.get(name, 0.37) + (rnd.uniform(-0.3, 0.3) if perturb else 0.0)
+        return cache[name]
+    env = sem.NumEnv(vf, V, atom)
+    a = sem.ev(vf.as_expr(lhs), env); b = sem.ev(vf.as_expr(rhs), env)
+    bad = ['definition of ' + name] if abs(a - b) > 1e-7 * (1 + abs(a) + abs(b)) else []
+    return bad, [[a], [b]]
 if spec[0] == 'diff':
     run = run_diff
+if spec[0] == 'equiv':
+    run = run_equiv
 res = None
 rnd = random.Random(1)
 for k in range(6):
@@ -291,6 +397,8 @@ def program_specs(tier, seed, n_rand):
         specs.append(('rand', base + k, 2 if k % 4 else 1))
     for k in range(n_rand // 2):
         specs.append(('diff', base + k))
+    for k in range(len(equiv_cases(vf))):
+        specs.append(('equiv', k))
     return specs
 
 
